@@ -50,6 +50,9 @@ type Model struct {
 	GoClosure  *ssa.Function // the function started by the go statement
 	ClosureMC  *ssa.MakeClosure
 	GoInstr    *ssa.Go
+	SpawnFn    *ssa.Function   // the function containing the go statement: Run, or a module helper Run hands the per-cell body to
+	SpawnCall  *ssa.Call       // the call of SpawnFn in Run (nil when Run spawns itself)
+	SpawnAt    ssa.Instruction // the instruction in Run at which the cells start: the go statement, or SpawnCall
 	Kernel     *ssa.Function
 	KernelCall *ssa.Call
 	Methods    map[string]*ssa.Function
@@ -281,6 +284,41 @@ func (p *Program) Registry() ([]*Model, []string) {
 			})
 		}
 		m.GoClosure = m.Closure
+		if m.GoInstr != nil {
+			m.SpawnFn = m.Run
+			m.SpawnAt = m.GoInstr
+		}
+		if m.Run != nil && m.Closure == nil {
+			// the fan-out may be delegated: Run hands a per-cell closure to a module helper that starts one goroutine
+			// per index and calls the closure from it
+			for _, c := range callsIn(m.Run) {
+				call, isCall := c.(*ssa.Call)
+				f := c.Common().StaticCallee()
+				if !isCall || f == nil || f.Blocks == nil || !InModule(f) || m.Closure != nil {
+					continue
+				}
+				for ai, a := range c.Common().Args {
+					mc := closureValueOf(a)
+					if mc == nil || ai >= len(f.Params) {
+						continue
+					}
+					body, _ := mc.Fn.(*ssa.Function)
+					if body == nil || body.Parent() != m.Run {
+						continue
+					}
+					g, gcl := goCallingParam(f, ai)
+					if g == nil {
+						continue
+					}
+					m.Closure, m.ClosureMC, m.GoInstr, m.GoClosure = body, mc, g, gcl
+					m.SpawnFn, m.SpawnCall, m.SpawnAt = f, call, call
+					if gcl == nil {
+						m.GoClosure = body // `go cell(j)`: the body itself is the goroutine
+					}
+					break
+				}
+			}
+		}
 		if m.Closure != nil && m.KernelName != "" {
 			findKernel := func(cl *ssa.Function) bool {
 				for _, c := range callsIn(cl) {
@@ -339,4 +377,84 @@ func (p *Program) Registry() ([]*Model, []string) {
 		}
 	}
 	return models, problems
+}
+
+// closureValueOf: the MakeClosure a function value denotes (directly, or through a local variable assigned once).
+func closureValueOf(v ssa.Value) *ssa.MakeClosure {
+	for _, o := range origins(v) {
+		switch x := o.(type) {
+		case *ssa.MakeClosure:
+			return x
+		case *ssa.UnOp:
+			if a, ok := x.X.(*ssa.Alloc); ok {
+				if sv := singleStoreCell(a); sv != nil {
+					if mc, ok := sv.(*ssa.MakeClosure); ok {
+						return mc
+					}
+				}
+			}
+		}
+	}
+	return nil
+}
+
+// isParamValue: v denotes parameter k of f — the parameter itself, or inside a closure of f a load of the captured
+// variable that holds it.
+func isParamValue(v ssa.Value, f *ssa.Function, k int) bool {
+	for _, o := range origins(v) {
+		if o == nil {
+			return false
+		}
+		o = stripConv(o)
+		if o == ssa.Value(f.Params[k]) {
+			continue
+		}
+		u, ok := o.(*ssa.UnOp)
+		if !ok {
+			return false
+		}
+		var cell ssa.Value = u.X
+		if fv, ok := u.X.(*ssa.FreeVar); ok {
+			cell = bindingOf(fv.Parent(), freeVarIndex(fv.Parent(), fv))
+		}
+		a, ok := cell.(*ssa.Alloc)
+		if !ok || a.Parent() != f {
+			return false
+		}
+		if sv := singleStoreCell(a); sv == nil || sv != ssa.Value(f.Params[k]) {
+			return false
+		}
+	}
+	return true
+}
+
+// goCallingParam: a go statement of f whose goroutine calls f's k-th parameter (a function value): the statement and
+// the goroutine's closure (nil when the parameter itself is started: `go cell(j)`).
+func goCallingParam(f *ssa.Function, k int) (*ssa.Go, *ssa.Function) {
+	var g *ssa.Go
+	var gcl *ssa.Function
+	eachInstr(f, func(_ *ssa.BasicBlock, _ int, ins ssa.Instruction) {
+		gs, ok := ins.(*ssa.Go)
+		if !ok || g != nil {
+			return
+		}
+		if isParamValue(gs.Common().Value, f, k) {
+			g = gs
+			return
+		}
+		mc, ok := gs.Common().Value.(*ssa.MakeClosure)
+		if !ok {
+			return
+		}
+		cl, _ := mc.Fn.(*ssa.Function)
+		if cl == nil {
+			return
+		}
+		for _, c := range callsIn(cl) {
+			if !c.Common().IsInvoke() && c.Common().StaticCallee() == nil && isParamValue(c.Common().Value, f, k) {
+				g, gcl = gs, cl
+			}
+		}
+	})
+	return g, gcl
 }
